@@ -110,7 +110,7 @@ SelGeq(u, v) ==       \* u.b / sqrt(u.g) >= v.b / sqrt(v.g)
 BestSel(X, y) == {k \in 1..Len(X) : \A j \in 1..Len(X) : SelGeq(SelKey(X, y, k), SelKey(X, y, j))}
 
 (* ---------------- admissible problems ---------------------------------------- *)
-NonConst(x) == \E j \in 1..Len(x) : x[j] # x[1]
+NonConst(x) == Cardinality(Range(x)) > 1        \* (no \E: TLC would branch on its witnesses in Init)
 \* full rank after restriction, also after centring; every training RDM varies on the selected conditions
 ProblemOK(b, tr, p) ==
   LET B == Catalogue[b] IN
